@@ -29,7 +29,7 @@ MAX_TIMEOUTS = {"quick": 1, "thorough": 20}
 REQUIRED = {"supplied_atoms_checked": 2000, "centre_only_residues": 100, "generated_residues": 300,
             "prefix_runs": 20, "build_res_runs": 15, "ignore_runs": 25, "failed_attempts_seen": 40,
             "supplied_checks_after_removal": 200, "ignore_positions": 3,
-            "meta_build_res_runs": 8, "injected_step_schedules": 30, "atoms_and_centres_runs": 20, "ligand_runs_with_supplied_hosts": 30, "ignore_runs_with_density_box": 15,
+            "meta_build_res_runs": 8, "injected_step_schedules": 30, "atoms_and_centres_runs": 20, "ligand_runs_with_supplied_hosts": 30, "ignore_runs_with_density_box": 15, "molecules_with_coordinates_continued": 200,
             "pdb_inputs_with_three_or_more_molecules": 10}
 
 
@@ -161,6 +161,21 @@ def run_case(cid, rng, workdir):
         if lack:
             violation(res, "missing-residue-not-generated", "residues %s had no coordinates and were never placed" %
                       sorted(lack)[:5], w)
+    # a molecule that comes with coordinates for some of its residues is continued from them: only a molecule without
+    # any coordinates is started on a point of the grid
+    have = {}
+    for g in groups:
+        if (g["mol"], g["res"]) in sup_keys or (g["mol"], g["res"]) in cen_keys:
+            have.setdefault(g["mol"], []).append(g["res"])
+    for mi, nd, _p in ctx["starts"]:
+        if mi in have and "start" not in kw and "ligands" not in kw:
+            bump(res, "grid_starts_in_molecules_with_coordinates")
+            violation(res, "started-on-the-grid-although-the-molecule-has-coordinates",
+                      "residue node %s of molecule %d was put on a start-grid point although residues %s of that molecule "
+                      "have supplied coordinates (it is then not grown from a positioned neighbour)" %
+                      (nd, mi, [r + 1 for r in have[mi]][:6]), w)
+            break
+    bump(res, "molecules_with_coordinates_continued", len(have))
     bump(res, "failed_attempts_seen", len(ctx["failed_attempts"]))
     bump(res, "supplied_checks_after_removal", ctx["stats"].get("supplied_checks_after_removal", 0))
     for (mi, nd, p, q) in ctx["after_failed"][:1]:
